@@ -45,6 +45,7 @@ func (t *TaskExecutor[T]) ExecuteAt(identifier T, callback func(), executionTime
 		// the task stops being the pending task of its identifier when it starts (not when its callback returns):
 		// it only runs if it is still the tracked one, i.e. if it was neither canceled nor replaced in the meantime.
 		// (scheduledTask is assigned before the mutex is released by ExecuteAt, so it is safe to read it here.)
+		verifYield("taskexec-wrapper-start")
 		t.queuedElementsMutex.Lock()
 		if queuedElement, queuedElementExists := t.queuedElements.Get(identifier); !queuedElementExists || queuedElement != scheduledTask {
 			t.queuedElementsMutex.Unlock()
